@@ -100,11 +100,40 @@ def strat_cases(ctx: Ctx):
     return _cases(ctx)
 
 
+_PATHS: dict = {}
+
+
+def _path_for(text: str) -> str:
+    """The text written once to a file of its own (kept for the worker's lifetime): every selection of a
+    case then reads the SAME unchanged file through Chart.from_filepath."""
+    import os
+    import tempfile
+    from cpverif import core
+    key = core.h64(text)
+    if key not in _PATHS:
+        d = core.work_dir()
+        if len(_PATHS) > 200:
+            for p_ in _PATHS.values():
+                try:
+                    os.remove(p_)
+                except OSError:
+                    pass
+            _PATHS.clear()
+        fd, p_ = tempfile.mkstemp(prefix=f"c13_{os.getpid()}_", suffix=".chart", dir=d)
+        with os.fdopen(fd, "w", encoding="utf-8", newline="") as f:
+            f.write(text)
+        _PATHS[key] = p_
+    return _PATHS[key]
+
+
 def _parse(ctx, text, sel, as_tuple, rc, what):
     want = None
     if sel is not None:
         pairs = [_pair(h) for h in sel]
         want = tuple(pairs) if as_tuple else pairs
+    if len(text) % 3 == 1:
+        from pathlib import Path
+        return L.Chart.from_filepath(Path(_path_for(text)), want_tracks=want)
     return L.parse(text, want_tracks=want)
 
 
@@ -123,7 +152,7 @@ def check_case(ctx: Ctx, case) -> None:
     present = set(spec["tracks"])
     rc0 = {"text": text}
     try:
-        full = L.parse(text)
+        full = _parse(ctx, text, None, False, rc0, "full")
     except Exception as e:  # noqa: BLE001
         ctx.fail("chart-parses", f"well-formed chart rejected: {type(e).__name__}: {e}", rc0)
         return
